@@ -11,6 +11,7 @@ import Cx.DriverDfa
 import Cx.DriverUtf8Range
 import Cx.DriverRev
 import Cx.DriverRevSuffix
+import Cx.DriverSeqOps
 import Cx.DriverRevInner
 import Cx.DriverRevAnchored
 import Cx.DriverRevSuffixSet
@@ -23,7 +24,7 @@ def tokens (line : String) : List String := (line.trimAscii.toString.splitOn " "
 def handlers : List (List String → Option String) :=
   [Cx.DriverCompile.handle?, Cx.DriverLit.handle?, Cx.DriverPike.handle?, Cx.DriverFast.handle?, Cx.DriverCompDfa.handle?, Cx.DriverCost.handle?,
    Cx.DriverConfig.handle?, Cx.DriverCaps.handle?, Cx.DriverDfa.handle?, Cx.DriverUtf8Range.handle?, Cx.DriverRev.handle?, Cx.DriverRevSuffix.handle?,
-   Cx.DriverRevInner.handle?, Cx.DriverRevAnchored.handle?, Cx.DriverRevSuffixSet.handle?, Cx.DriverMultilineRevSuffix.handle?]
+   Cx.DriverRevInner.handle?, Cx.DriverRevAnchored.handle?, Cx.DriverRevSuffixSet.handle?, Cx.DriverMultilineRevSuffix.handle?, Cx.DriverSeqOps.handle?]
 
 def answer (line : String) : String :=
   let toks := tokens line
